@@ -454,6 +454,10 @@ func (fsdb *FsDb) importCertConfigFile(certContent config.CertificateContent, co
 
 		if hashIx != -1 {
 			hashEnd := bytes.IndexRune(certfiContent[hashIx:], '\n')
+			if hashEnd != -1 {
+				//the index is relative to the start of the hash line
+				hashEnd += hashIx
+			}
 			hashIx += len(hashPrefix)
 			if hashEnd != -1 {
 				hashs := string(certfiContent[hashIx:hashEnd])
